@@ -19,7 +19,7 @@ func isPattern(n *Node) bool { return n != nil && (n.K == "arrpat" || n.K == "ob
 
 func (it *Interp) resolveLeaf(target *Node, ctx *Ctx, m bindMode) *Ref {
 	if m.assign {
-		return it.evalTargetRef(target, ctx)
+		return it.evalLeafTargetRef(target, ctx)
 	}
 	if target.K != "id" {
 		it.unsupported("binding target kind " + target.K)
@@ -28,6 +28,16 @@ func (it *Interp) resolveLeaf(target *Node, ctx *Ctx, m bindMode) *Ref {
 		return it.resolveBinding(target.S, m.env, ctx.strict)
 	}
 	return it.resolveBinding(target.S, ctx.lex, ctx.strict)
+}
+
+// evalLeafTargetRef evaluates a destructuring-assignment target or a for-in/of head that
+// is not a declaration (see Options.EagerTargetBase).
+func (it *Interp) evalLeafTargetRef(target *Node, ctx *Ctx) *Ref {
+	r := it.evalTargetRef(target, ctx)
+	if it.eagerTargetBase && r.isProperty() && r.thisValue == nil {
+		it.requireObjectCoercible(r.base)
+	}
+	return r
 }
 
 func (it *Interp) storeLeaf(r *Ref, v Value, m bindMode) {
